@@ -69,6 +69,26 @@ theorem whole_input_parse_returns_the_tree_of_the_text (t : Buf) (tr : Json) (h 
     docTree false t = some tr :=
   DomP.fromSlicePadded_tree t tr h
 
+/-- the two compositions agree outright: the whole-input path on the padded copy returns what the decoding parser returns on
+    the bare text — same verdict (both accept exactly the strict grammar) and, when accepted, the same tree (both return the
+    tree the text denotes) -/
+theorem padding_does_not_change_the_tree (t : Buf) : DomP.fromSlicePadded t = DomP.document t := by
+  have hacc : (DomP.fromSlicePadded t).isSome = true ↔ (DomP.document t).isSome = true :=
+    (DomP.fromSlicePadded_accept_iff t).trans (DomP.document_accept_iff t).symm
+  cases ha : DomP.fromSlicePadded t with
+  | none =>
+    cases hb : DomP.document t with
+    | none => rfl
+    | some tr' => rw [ha, hb] at hacc; simp at hacc
+  | some tr =>
+    cases hb : DomP.document t with
+    | none => rw [ha, hb] at hacc; simp at hacc
+    | some tr' =>
+      have h1 := DomP.fromSlicePadded_tree t tr ha
+      obtain ⟨_, _, _, h2⟩ := DomP.strict_of_document t tr' hb
+      rw [h1] at h2
+      exact h2
+
 /-- **… and its strings are the ones in-place decoding leaves in the buffer**: for the tree `tr` that the whole-input path
     returns for a text `t`, the string literals of `t` in document order can be decoded in place one after the other in the
     padded buffer (`StrIn.runMany`: the unchecked block decoder of src/util/string.rs, every run on what the runs before left),
